@@ -22,8 +22,8 @@ EXTENDS QueueMem, TraceLib, Json
 
 TraceLog == ndJsonDeserialize("trace.ndjson")
 N == Len(TraceLog)
-VARIABLES l, orig
-tvars == <<vars, l, orig>>
+VARIABLES l, orig, cx      \* cx: queue -> context of the run (from the Reset line)
+tvars == <<vars, l, orig, cx>>
 ASSUME HWInit
 
 Ev == TraceLog[l]
@@ -34,6 +34,7 @@ SeqOf(x) == [i \in 1..Len(x) |-> x[i]]
 TInit ==
   /\ l = 1
   /\ orig = [q \in Queues |-> <<>>]
+  /\ cx = [q \in Queues |-> 1]
   /\ dram = [b \in Bufs |-> 100 + b] /\ expect = [b \in Bufs |-> 100 + b]
   /\ l2 = [b \in Bufs |-> Nil] /\ mark = [b \in Bufs |-> FALSE]
   /\ prog = [q \in Queues |-> <<>>]
@@ -48,6 +49,7 @@ TReset ==
   /\ Len(Ev.progs) = NQ
   /\ prog' = [q \in Queues |-> SeqOf(Ev.progs[q])]
   /\ orig' = prog'
+  /\ cx' = [q \in Queues |-> IF q <= Len(Ev.ctx) THEN Ev.ctx[q] ELSE 1]
   /\ \A q \in Queues : \A i \in 1..Len(prog'[q]) :
         LET o == prog'[q][i] IN
           IF o.k = "d2d" THEN {o.dst, o.src} \subseteq BufsOf[q] ELSE o.b \in BufsOf[q]
@@ -60,28 +62,31 @@ TReset ==
 
 Idx(q) == Len(orig[q]) - Len(prog[q]) + 1     \* 1-based index of the current / next operation of q
 
-TOpStart == Is("OpStart") /\ Ev.q \in Queues /\ Idx(Ev.q) = Ev.i /\ OpStart(Ev.q) /\ UNCHANGED orig
+TOpStart == Is("OpStart") /\ Ev.q \in Queues /\ Idx(Ev.q) = Ev.i /\ OpStart(Ev.q) /\ UNCHANGED <<orig, cx>>
 TFlush ==
   /\ Is("Flush") /\ Ev.q \in Queues /\ Ev.g \in GPUs /\ Idx(Ev.q) = Ev.i
   /\ (FlushSend(Ev.q, Ev.g) \/ KFlushSend(Ev.q, Ev.g))
-  /\ UNCHANGED orig
-TFlushAck == Is("FlushAck") /\ Ev.q \in Queues /\ Ev.g \in GPUs /\ FlushAck(Ev.q, Ev.g) /\ UNCHANGED orig
-TData == Is("Data") /\ Ev.q \in Queues /\ Idx(Ev.q) = Ev.i /\ CopyData(Ev.q) /\ UNCHANGED orig
-TKLaunch == Is("KLaunch") /\ Ev.q \in Queues /\ Idx(Ev.q) = Ev.i /\ KLaunch(Ev.q) /\ UNCHANGED orig
-TKDone == Is("KDone") /\ Ev.q \in Queues /\ Idx(Ev.q) = Ev.i /\ KDone(Ev.q) /\ UNCHANGED orig
+  /\ UNCHANGED <<orig, cx>>
+TFlushAck == Is("FlushAck") /\ Ev.q \in Queues /\ Ev.g \in GPUs /\ FlushAck(Ev.q, Ev.g) /\ UNCHANGED <<orig, cx>>
+TData == Is("Data") /\ Ev.q \in Queues /\ Idx(Ev.q) = Ev.i /\ CopyData(Ev.q) /\ UNCHANGED <<orig, cx>>
+TKLaunch ==
+  /\ Is("KLaunch") /\ Ev.q \in Queues /\ Idx(Ev.q) = Ev.i
+  /\ KLaunchC(Ev.q, UNION {BufsOf[p] : p \in {p \in Queues : cx[p] = cx[Ev.q]}})
+  /\ UNCHANGED <<orig, cx>>
+TKDone == Is("KDone") /\ Ev.q \in Queues /\ Idx(Ev.q) = Ev.i /\ KDone(Ev.q) /\ UNCHANGED <<orig, cx>>
 TOpDone ==
   /\ Is("OpDone") /\ Ev.q \in Queues /\ Idx(Ev.q) = Ev.i
   /\ stage[Ev.q] = "run" /\ (Op(Ev.q).k = "d2h" => cap[Ev.q] = Ev.obs)
   /\ OpDone(Ev.q)
-  /\ UNCHANGED orig
+  /\ UNCHANGED <<orig, cx>>
 \* end of a run: everything completed
-TEnd == Is("End") /\ (\A q \in Queues : prog[q] = <<>> /\ stage[q] = "idle") /\ UNCHANGED <<vars, orig>>
+TEnd == Is("End") /\ (\A q \in Queues : prog[q] = <<>> /\ stage[q] = "idle") /\ UNCHANGED <<vars, orig, cx>>
 
 TSilent ==
   /\ l <= N
   /\ \/ \E q \in Queues : KWrite(q)
      \/ \E b \in Bufs : Evict(b)
-  /\ UNCHANGED <<l, orig>>
+  /\ UNCHANGED <<l, orig, cx>>
 
 TNext == TReset \/ TOpStart \/ TFlush \/ TFlushAck \/ TData \/ TKLaunch \/ TKDone \/ TOpDone \/ TEnd \/ TSilent
 TSpec == TInit /\ [][TNext]_tvars
@@ -93,6 +98,7 @@ THome1 == [b \in 1..(2 * NQ) |-> 1]
 \* 2 GPUs: kernels run on GPU 1, the second buffer of every queue lives on GPU 2
 THome2 == [b \in 1..(2 * NQ) |-> IF b % 2 = 0 THEN 2 ELSE 1]
 TProgs == [q \in Queues |-> {<<>>}]
+TCtx == [q \in Queues |-> 1]          \* unused by the trace actions (cx comes from the trace)
 
 Mark == HWNote(l)
 Accepted == HWReport(N)
